@@ -326,7 +326,7 @@ def _w_c09_decorators(task):
     if alg not in ('no', 'inf'):
         kw['maxsize'] = 100000
     W = getattr(m, alg + '_cache')(**kw)(f)
-    calls = callmc.calls(values=(1.04, 2.55, 3, bdef), maxpos=2, kwnames=('a', 'b', 'k', 'z'), maxkw=2)
+    calls = callmc.calls(values=(1.04, 2.55, 3, bdef) + ((kdef,) if ignore is not None else ()), maxpos=2, kwnames=('a', 'b', 'k', 'z'), maxkw=2)
     groups = collections.OrderedDict()
     for a, kwi in calls:
         try:
